@@ -118,6 +118,18 @@ PROPS = {
                      'completion batch size large enough for all router completions of a cycle to arrive in one tick (harness discipline)'],
         trusted_base=['schedule coroutines modelled by hand and tied by sysdiff; Model/Env.lean (cron grid, id template subset)'],
     ),
+    'C20': dict(
+        modules=['Resonate.Properties.C20'],
+        tie_filter=r'Insert_row|_set|Select_where|_proj|shape|wiring',
+        harness=[dict(bin='codecdiff', name='codecdiff', quick=['-cases', '1500'], thorough=['-cases', '60000'], search=['-cases', '20000']),
+                 storediff('storediff-all', None, (20, 30), (600, 40)),
+                 sysdiff('sysdiff-data', ['CreatePromise', 'CompletePromise', 'ReadPromise', 'SearchPromises', 'CreateSchedule', 'ReadSchedule', 'CreateCallback', 'ClaimTask'],
+                         (15, 120), (300, 150), 'C01', ['-routed', '50', '-hostile', '-known', 'F5'], (100, 150))],
+        rule='codecdiff: random string maps over an alphabet of hostile characters (all 32 control characters, quotes, backslash, slash, markup characters, DEL, U+2028/2029, RTL and combining marks, U+FFFD/U+FFFF, astral-plane characters; lengths up to ~2000) encoded by the real encoding/json and decoded through the real PromiseRecord.Promise(), compared with the Lean codec both ways (char classes counted); storediff / sysdiff carry markup and non-ASCII data, headers, tags, receiver descriptions, slashes and colons in ids through the real store and coroutines and compare every stored row and every response field with the model',
+        assumptions=['text = valid UTF-8; absent and empty are equivalent for maps and blobs', 'HTTP / protobuf wire codecs (gin, protobuf, base64) are exercised by frontdiff translation-equality only, not modelled',
+                     'Postgres 32-bit columns are outside the model'],
+        trusted_base=['Model/Json.lean is validated against encoding/json by codecdiff'],
+    ),
     'C14': dict(
         modules=['Resonate.Properties.C14'],
         tie_filter=r'(promise|schedule)(Search|Insert|Update|Delete|Select)|shape|wiring|uniques',
